@@ -27,8 +27,9 @@ def tick_grid(tier, seed):
         reqs = list(range(1, MAXREQ + 1))
         if tier == "quick":
             reqs = sorted(rng.sample(reqs, 96) + [1, den - 1, den, den + 1, 2 * den, MAXREQ])
-        for chunk in range(0, len(reqs), 64):
-            s = BookSession(tick=tick, den=den, exact=True, p0=16 * den)
+        for ci, chunk in enumerate(range(0, len(reqs), 64)):
+            # (every other session: the market was set up with another tick size and given this one afterwards)
+            s = BookSession(tick=tick, den=den, exact=True, p0=16 * den, setup_tick=(tick * 4 if ci % 2 else None))
             try:
                 for req in reqs[chunk:chunk + 64]:
                     for buy in (True, False):
